@@ -194,3 +194,110 @@ example : (Data.mk 1 0 ([0xdd, 0x76, 0xe7, 0x35, 0x9a, 0x0d, 0xed, 0x37, 0xcd, 0
     secret_bytes := by decide, secret_top := by decide, secret_pad := by decide, checksum_ok := by decide +kernel }
 
 end Polyseed.C01
+
+namespace Polyseed.C01
+
+/-- consequently the decoded seed has the same serialized bytes, the same key-derivation inputs for every
+coin and key size, the same birthday, the same user features and the same encryption flag. -/
+theorem roundtrip_observations (cfg : Cfg) (env : Env) (lib : Lib) (L : Lang) (d : Data) (coin : Nat) (w w1 : World)
+    (e : Event) (b : Nat) (junk : Data)
+    (hnw : cfg.numWords = 16) (hT : TableOK L) (hd : d.Canon) (hcoin : coin < 2048)
+    (hs : featuresSupported lib.reserved d.features = true)
+    (hnorm : NormOK cfg env lib L d coin)
+    (ha : doAlloc cfg lib w = (some (b, junk), e, w1)) :
+    ∃ d', (decodeExplicit cfg env lib (encoded env lib L d coin) coin L w).lib.get b = some d' ∧
+      store d' = store d ∧ (∀ c n, keygen env lib d' c n = keygen env lib d c n) ∧
+      getBirthday d' = getBirthday d ∧ (∀ m, getFeature d' m = getFeature d m) ∧ isEncryptedSeed d' = isEncryptedSeed d := by
+  obtain ⟨_, _, hg⟩ := decodeExplicit_encode cfg env lib L d coin w w1 e b junk hnw hT hd hcoin hs hnorm ha
+  exact ⟨d, hg, rfl, fun _ _ => rfl, rfl, fun _ => rfl, rfl⟩
+
+/-- with automatic detection the 'multiple languages' status is returned exactly when some OTHER registered
+language recognises all 16 words of the phrase as well. -/
+theorem decode_encode_multLang_iff (cfg : Cfg) (env : Env) (lib : Lib) (li : Nat) (hli : li < cfg.langs.length) (d : Data) (coin : Nat)
+    (w : World) (hnw : cfg.numWords = 16) (hT : TableOK cfg.langs[li]) (hd : d.Canon) (hcoin : coin < 2048)
+    (hnorm : NormOK cfg env lib cfg.langs[li] d coin) :
+    (decode cfg env lib (encoded env lib cfg.langs[li] d coin) coin w).out.status = .multLang ↔
+      ∃ (l' : Nat) (hl' : l' < cfg.langs.length), l' ≠ li ∧
+        (findAll cfg.langs[l'] (phraseWords cfg.langs[li] d coin)).isSome = true := by
+  have hwf := hd.toWF
+  have hsplit := strSplit_joinWords (phraseWords cfg.langs[li] d coin) (phraseWords_ok _ hT d hwf coin hcoin) 16
+    (by rw [phraseWords_length _ d hwf coin]; exact Nat.le_refl _)
+  rw [phraseWords_length _ d hwf coin] at hsplit
+  have hfind := findAll_words _ hT (encodeCoeffs d coin) (encodeCoeffs_lt d hwf coin hcoin)
+  have hmem : (li, encodeCoeffs d coin) ∈ matching (phraseWords cfg.langs[li] d coin) cfg.langs 0 :=
+    (matching_mem _ cfg.langs 0 li _).mpr ⟨li, hli, by omega, hfind⟩
+  have hchk : polyCheck (applyCoin (encodeCoeffs d coin) coin) = true := by
+    rw [applyCoin_encodeCoeffs d hwf coin]; exact (polyCheck_cons_iff _ _).mpr hd.checksum_ok
+  unfold NormOK at hnorm
+  simp only [decode]
+  generalize hdec : decompose cfg env lib (encoded env lib cfg.langs[li] d coin) = dec at hnorm ⊢
+  obtain ⟨tmp, pre⟩ := dec
+  simp only at hnorm
+  subst hnorm
+  simp only [hnw, hsplit, ne_eq, not_true_eq_false, ↓reduceIte]
+  rw [phraseDecode_spec]
+  have hother : ∀ l idx, (l, idx) ∈ matching (phraseWords cfg.langs[li] d coin) cfg.langs 0 → l ≠ li →
+      ∃ (l' : Nat) (hl' : l' < cfg.langs.length), l' ≠ li ∧ (findAll cfg.langs[l'] (phraseWords cfg.langs[li] d coin)).isSome = true := by
+    intro l idx hm hne
+    obtain ⟨k, hk, hlk, hf⟩ := (matching_mem _ cfg.langs 0 l idx).mp hm
+    have : l = k := by omega
+    subst this
+    exact ⟨l, hk, hne, by rw [hf]; rfl⟩
+  split
+  · rename_i hm; rw [hm] at hmem; simp at hmem
+  · rename_i l idx hm
+    rw [hm] at hmem hother
+    simp only [List.mem_singleton, Prod.mk.injEq] at hmem
+    obtain ⟨rfl, rfl⟩ := hmem
+    simp only [not_true_eq_false, ↓reduceIte]
+    constructor
+    · intro h
+      exfalso
+      cases hc2 : polyCheck (applyCoin (encodeCoeffs d coin) coin) with
+      | false => rw [hchk] at hc2; cases hc2
+      | true =>
+        rcases ha : doAlloc cfg lib w with ⟨_ | ⟨b, junk⟩, e, w1⟩
+        · rw [decodeFinish_memory hchk ha] at h; simp at h
+        · cases hs : featuresSupported lib.reserved (polyToData (applyCoin (encodeCoeffs d coin) coin)).features
+          · rw [decodeFinish_unsupported hchk ha hs] at h; simp at h
+          · rw [decodeFinish_ok hchk ha hs] at h; simp at h
+    · rintro ⟨l', hl', hne, hsome⟩
+      exfalso
+      obtain ⟨idx', hidx'⟩ := Option.isSome_iff_exists.mp hsome
+      have hm' : (l', idx') ∈ matching (phraseWords cfg.langs[li] d coin) cfg.langs 0 :=
+        (matching_mem _ cfg.langs 0 l' idx').mpr ⟨l', hl', by omega, hidx'⟩
+      rw [hm] at hm'
+      simp only [List.mem_singleton, Prod.mk.injEq] at hm'
+      exact hne hm'.1
+  · rename_i l idx a rest hm
+    simp only [ne_eq, reduceCtorEq, not_false_eq_true, ↓reduceIte, true_iff]
+    -- two entries: at least one of them is another language (positions in `matching` are distinct)
+    by_cases h1 : l = li
+    · -- then the second entry is another one
+      obtain ⟨l2, idx2⟩ := a
+      have hm2 : (l2, idx2) ∈ matching (phraseWords cfg.langs[li] d coin) cfg.langs 0 := by rw [hm]; simp
+      by_cases h2 : l2 = li
+      · exfalso
+        -- both entries would be the same language: impossible, `matching` lists each position once (increasing positions)
+        have hinc : ∀ (Ls : List Lang) (s0 : Nat) (x y : Nat × List Nat) (r : List (Nat × List Nat)),
+            matching (phraseWords cfg.langs[li] d coin) Ls s0 = x :: y :: r → x.1 < y.1 := by
+          intro Ls
+          induction Ls with
+          | nil => intro s0 x y r h; simp [matching] at h
+          | cons L' Ls ih =>
+            intro s0 x y r h
+            unfold matching at h
+            split at h
+            · exact ih (s0 + 1) x y r h
+            · rename_i idx0 _
+              simp only [List.cons.injEq] at h
+              obtain ⟨rfl, h'⟩ := h
+              have : (y.1, y.2) ∈ matching (phraseWords cfg.langs[li] d coin) Ls (s0 + 1) := by rw [h']; simp
+              obtain ⟨k, _, hk, _⟩ := (matching_mem _ Ls (s0 + 1) y.1 y.2).mp this
+              simp only; omega
+        have := hinc cfg.langs 0 (l, idx) (l2, idx2) rest hm
+        simp only at this; omega
+      · exact hother l2 idx2 hm2 h2
+    · exact hother l idx (by rw [hm]; simp) h1
+
+end Polyseed.C01
